@@ -274,7 +274,7 @@ Fixpoint holds_from (s : hstate) (es : list event) (os : list obs) : bool :=
                 let '(ok, s') := holds_trunc s mint cpidx cp in ok && holds_from s' es' os'
           | _ => false
           end
-      | EEvict _ _ | ERoll => holds_from s es' os
+      | EEvict _ _ | ERoll | ECreate _ => holds_from s es' os
       | ERestart _ _ => holds_from (mkHS (hs_cpidx s) (hs_cp s) (hs_segs s) (hs_g s) true) es' (tl os)
       end
   end.
